@@ -140,7 +140,7 @@ theorem q0_messageSetFileMoved (ms : MsgSt) (s d : Subdir) (dir name : Bytes) :
   simp only [bind_eq, pure_eq, call_bind]
   repeat' quiet0_step
 
-theorem q0_execP (fdin : Option Handle) : Calls Quiet0 (execP fdin) := by
+theorem q0_execP (argv : List Bytes) (fdin : Option Handle) : Calls Quiet0 (execP argv fdin) := by
   unfold execP
   simp only [bind_eq, pure_eq, call_bind]
   repeat' quiet0_step
